@@ -224,7 +224,10 @@ def get_cauchy_point(
             nseg, f_prime, f_second, delta_t, delta_t_min, iprint, logger
         )
 
-        if delta_t_min < delta_t:
+        # With tied breakpoints the segment between two of them has zero length and its
+        # derivatives still contain the variables about to be fixed at the same t: the
+        # minimiser can only be looked for once all of them are fixed.
+        if delta_t > 0 and delta_t_min < delta_t:
             is_gpc_found = True
             break
 
